@@ -208,6 +208,19 @@ def run(ctx):
         except Raised as r:
             vec["single unnamed sheet is the survey"] = False
         vectors[kind] = vec
+    # an Excel workbook may hold a stray copy of a sheet whose name differs by surrounding blanks (` settings `, a draft
+    # or back-up): the sheet that carries the exact name is the one that is read - never replaced by the copy
+    for kind in ("xls", "xlsx"):
+        for names_ in (["survey", "settings", " settings "], ["survey", " settings ", "settings"], ["survey", "choices", "choices "], ["survey ", "survey", "settings"]):
+            try:
+                res_ = _eval_backend(ctx, kind, names_)
+            except Raised as r:
+                r2.fail(f"{kind}_to_dict:stray sheet copy {names_!r}", f"evaluates ({r.exc_name}{r.exc_args})", "pyxform/xls2json_backends.py")
+                continue
+            exact_ = [n for n in names_ if n == n.strip()]
+            bad_ = [n for n in exact_ if res_.get(n) != f"rows:{n}" or res_.get(f"{n}_header") != f"hdr:{n}"]
+            r2.check(not bad_, f"{kind}_to_dict:stray sheet copy {names_!r}", "each exactly named sheet supplies its own rows and header", "pyxform/xls2json_backends.py",
+                     why_fail=f"{ {n: res_.get(n) for n in bad_} }")
     feats = sorted({f for v in vectors.values() for f in v})
     for f in feats:
         for kind, v in vectors.items():
@@ -293,6 +306,18 @@ def run(ctx):
         except Raised as e:
             oku, rows_u = False, f"raises {e.exc_name}"
         r2.check(oku, f"md_to_dict:cell containing {ch_name}", "the character stays inside its cell; the table keeps its rows", mt.loc(), why_fail=repr(rows_u)[:200])
+    # a sheet that consists of its name alone (`| setings |` and nothing below it) is a sheet of the workbook: the
+    # misspelling advisory is computed from the sheet names, as it is for an empty sheet of an Excel workbook
+    for desc_s, md_s, want_s in (("name-only sheet last", "| survey |\n| | type | name |\n| | text | q |\n| setings |\n", ["survey", "setings"]),
+                                 ("name-only sheet first", "| setings |\n| survey |\n| | type | name |\n| | text | q |\n", ["setings", "survey"]),
+                                 ("name-only sheet between", "| survey |\n| | type | name |\n| entitis |\n| choices |\n| | list_name | name |\n", ["survey", "entitis", "choices"])):
+        it.reset([])
+        try:
+            st_s = it.call_function(mt, [md_s], {}, None, mt.node)
+            got_s = list(st_s) if isinstance(st_s, dict) else repr(st_s)[:80]
+        except Raised as e:
+            got_s = f"raises {e.exc_name}"
+        r2.check(got_s == want_s, f"md_to_dict:sheet names[{desc_s}]", f"the sheets are {want_s}", mt.loc(), why_fail=repr(got_s))
     # '#' is a comment only at the start of a line or after the last cell: a cell whose text begins with (or contains) '#'
     # is cell text
     for cell_text in ("# of children", "#hashtag", "room #3", "a # b", "#"):
